@@ -143,19 +143,19 @@ MayStore(S, h, adj, n) ==
 Accumulate(g, a) == IF g.none THEN a ELSE Some(TAdd(g.x, a.x))
 
 \* the abstract pass; `stored` is the set of may-store nodes that do store
+\* (BackwardWith takes the reference adjoint adj = RefAdj(S, root, seed) computed by the caller)
+BackwardWith(S, h, adj, stored) ==
+  LET root == S.hd[h].n IN
+  [S EXCEPT !.grad = [n \in 1..Len(S.nodes) |->
+                        IF n <= root /\ IsSome(adj[n]) /\ (MustStore(S, h, adj, n) \/ n \in stored)
+                        THEN Accumulate(S.grad[n], adj[n]) ELSE S.grad[n]]]
 Backward(S, h, seedOpt, stored) ==
-  LET root == S.hd[h].n
-      adj == RefAdj(S, root, SeedOf(S, h, seedOpt))
-  IN [S EXCEPT !.grad = [n \in 1..Len(S.nodes) |->
-                           IF n <= root /\ IsSome(adj[n]) /\ (MustStore(S, h, adj, n) \/ n \in stored)
-                           THEN Accumulate(S.grad[n], adj[n]) ELSE S.grad[n]]]
+  BackwardWith(S, h, RefAdj(S, S.hd[h].n, SeedOf(S, h, seedOpt)), stored)
 
 \* derivative evaluations of the pass (C11): every reached node that has operands,
 \* exactly once, with its complete adjoint
-Evaluated(S, h, seedOpt) ==
-  LET root == S.hd[h].n
-      adj == RefAdj(S, root, SeedOf(S, h, seedOpt))
-  IN { n \in 1..root : IsSome(adj[n]) /\ HasKids(S, n) }
+EvaluatedWith(S, h, adj) == { n \in 1..S.hd[h].n : IsSome(adj[n]) /\ HasKids(S, n) }
+Evaluated(S, h, seedOpt) == EvaluatedWith(S, h, RefAdj(S, S.hd[h].n, SeedOf(S, h, seedOpt)))
 \* in-pass consumers of n
 Consumers(S, n, root, adj) == { p[1] : p \in Edges(S, n, root, adj) }
 
